@@ -32,7 +32,14 @@ type rewriter struct {
 
 func main() {
 	total := 0
-	for _, path := range os.Args[1:] {
+	args := os.Args[1:]
+	fakeUDP := false
+	if len(args) > 0 && args[0] == "-fakeudp" {
+		// also redirect net.ListenUDP to the in-memory socket of internal/vrt
+		fakeUDP = true
+		args = args[1:]
+	}
+	for _, path := range args {
 		fset := token.NewFileSet()
 		f, err := parser.ParseFile(fset, path, nil, parser.ParseComments)
 		if err != nil {
@@ -40,6 +47,20 @@ func main() {
 			os.Exit(1)
 		}
 		rw := &rewriter{fset: fset, file: filepath.Base(path)}
+		if fakeUDP {
+			ast.Inspect(f, func(n ast.Node) bool {
+				if c, ok := n.(*ast.CallExpr); ok {
+					if s, ok := c.Fun.(*ast.SelectorExpr); ok && s.Sel.Name == "ListenUDP" {
+						if x, ok := s.X.(*ast.Ident); ok && x.Name == "net" {
+							x.Name = "vrt"
+							rw.n++
+						}
+					}
+				}
+
+				return true
+			})
+		}
 		for _, d := range f.Decls {
 			if fd, ok := d.(*ast.FuncDecl); ok && fd.Body != nil {
 				rw.block(fd.Body)
@@ -191,6 +212,8 @@ func (rw *rewriter) stmts(list []ast.Stmt) []ast.Stmt { //nolint:cyclop,gocognit
 				out = append(out, rw.yield(v.Pos()), s, call("Acquired"))
 			case isCall && (name == "Unlock" || name == "RUnlock") && len(c.Args) == 0:
 				out = append(out, call("Released"), s)
+			case isCall && (name == "Add" || name == "Done") && len(c.Args) <= 1:
+				out = append(out, rw.yield(v.Pos()), s) // WaitGroup.Add / Done
 			case hasSyncExpr(v.X):
 				out = append(out, rw.yield(v.Pos()), s)
 			default:
